@@ -114,6 +114,19 @@ class C18(Prop):
                         c.tags.add("nt")
                     out.append(c)
                     k += 1
+        # lines longer than the 8 KiB buffer of the BufReader the chunker reads through (a bed12 record with thousands of blocks, a
+        # long name): a chunk target that lands inside such a line has more than one buffer load to skip to reach the line's end
+        for g in range(40 if tier == "thorough" else 8):
+            r = rng.fork(f"longline{g}")
+            nl_ = r.range(2, 6)
+            lens = [r.choice([3, 40, 8200, 9000, 20000, 30000]) for _ in range(nl_)]
+            lens[r.below(nl_)] = r.choice([8300, 17000, 25000, 40000])
+            text = "".join(f"chr{1 + i // 2}\t{i * 10}\t{i * 10 + 5}\t" + "n" * L + "\n" for i, L in enumerate(lens))
+            for n in (2, 3, 4, 5, 8, 16):
+                c = CaseT(f"ch{k}", "chunks", [n], ["TEXT " + text.encode().hex()])
+                c.tags |= {"chunks", "nt", "chunks_line_longer_than_8KiB"}
+                out.append(c)
+                k += 1
         # --- consequence for the parallel path: an input that is NOT grouped (a foreign run inside a chromosome's run) must be
         # reported — by the indexer or by the per-chromosome readers — never converted silently with records missing
         import bbgen
